@@ -595,6 +595,13 @@ func runCase(c *gal.Ctx, kind string, t *tpm.TPM, hist []cmdT, segEnd map[int]bo
 				}
 			}
 		}
+		if bad == "" && cm.kind == kReset {
+			// a reset object is indistinguishable from a new one, SupportedAlgos included
+			want := tpm.NewTPM().SupportedAlgos
+			if fmt.Sprint(t.SupportedAlgos) != fmt.Sprint(want) {
+				bad = fmt.Sprintf("after Reset() SupportedAlgos is %v, NewTPM() has %v", t.SupportedAlgos, want)
+			}
+		}
 		if bad == "" {
 			switch {
 			case !clOK:
@@ -650,7 +657,7 @@ func runCase(c *gal.Ctx, kind string, t *tpm.TPM, hist []cmdT, segEnd map[int]bo
 }
 
 func main() {
-	c := gal.New("C02", header, 60)
+	c := gal.New("C02", header, 90)
 	shared := tpm.NewTPM()
 
 	// fixed witness of the repaired pool-index bug
@@ -662,7 +669,7 @@ func main() {
 	}
 
 	nSweep := 256
-	nRandom := c.Scale(600, 6000)
+	nRandom := c.Scale(900, 9000)
 	for i := 0; i < nSweep+nRandom; i++ {
 		var hist []cmdT
 		segEnd := map[int]bool{}
